@@ -1,0 +1,173 @@
+//! Read-only projection of connection state for external trace validation (H3).
+use std::net::SocketAddr;
+
+use super::super::{spaces::PacketSpace, paths::PathData, timer::Timer, Connection, State};
+use crate::{Duration, Instant};
+
+/// Per-path projection
+#[derive(Debug, Clone, PartialEq, Eq)]
+pub struct PathSnap {
+    pub remote: SocketAddr,
+    pub validated: bool,
+    pub total_sent: u64,
+    pub total_recvd: u64,
+    pub in_flight_bytes: u64,
+    pub in_flight_ack_eliciting: u64,
+    pub current_mtu: u16,
+    pub cwnd: u64,
+    pub challenge: bool,
+    pub challenge_pending: bool,
+    pub rtt_pto_base: Duration,
+}
+
+/// Per packet-number-space projection
+#[derive(Debug, Clone, PartialEq, Eq)]
+pub struct SpaceSnap {
+    pub has_keys: bool,
+    pub next_pn: u64,
+    pub largest_acked: Option<u64>,
+    pub loss_probes: u32,
+    pub sent_in_flight: bool,
+    pub dedup_next: u64,
+    pub rx_packet: u64,
+    pub loss_time: Option<Instant>,
+    pub time_of_last_ack_eliciting_packet: Option<Instant>,
+    pub crypto_offset: u64,
+}
+
+/// Stream-layer accounting projection (filled by `StreamsState::verif_snap`)
+#[derive(Debug, Clone, Default, PartialEq, Eq)]
+pub struct StreamsSnap {
+    pub data_sent: u64,
+    pub max_data: u64,
+    pub unacked_data: u64,
+    pub send_window: u64,
+    pub local_max_data: u64,
+    pub sent_max_data: u64,
+    pub data_recvd: u64,
+    pub receive_window: u64,
+    pub next: [u64; 2],
+    pub max: [u64; 2],
+    pub max_remote: [u64; 2],
+    pub allocated_remote_count: [u64; 2],
+    pub send_streams: usize,
+    pub n_send: usize,
+    pub n_recv: usize,
+    /// (stream id, send offset, peer max_data for it) for every live send stream, sorted
+    pub send_offsets: Vec<(u64, u64, u64)>,
+    /// (stream id, end, bytes_read, sent_max_stream_data, stopped) for every live recv stream, sorted
+    pub recv_state: Vec<(u64, u64, u64, u64, bool)>,
+}
+
+/// Projection of the connection state the Lean models speak about
+#[derive(Debug, Clone, PartialEq, Eq)]
+pub struct Snapshot {
+    /// handshake | established | closed | draining | drained
+    pub state: &'static str,
+    pub has_error: bool,
+    pub close: bool,
+    /// indexed like `Timer::VALUES`
+    pub timers: [Option<Instant>; 9],
+    pub path: PathSnap,
+    pub prev_path: Option<PathSnap>,
+    pub spaces: [SpaceSnap; 3],
+    pub highest_space: usize,
+    pub pto_count: u32,
+    pub pto: [Duration; 3],
+    pub idle_timeout: Option<Duration>,
+    pub total_authed_packets: u64,
+    pub authentication_failures: u64,
+    pub streams: StreamsSnap,
+    pub dgram_out_total: usize,
+    pub dgram_out_len: usize,
+    pub dgram_in_buffered: usize,
+    pub dgram_in_len: usize,
+    pub events_queued: usize,
+    pub endpoint_events_queued: usize,
+    pub path_responses_empty: bool,
+    pub permit_idle_reset: bool,
+    pub key_phase: bool,
+    pub accepted_0rtt: bool,
+}
+
+fn path_snap(p: &PathData) -> PathSnap {
+    PathSnap {
+        remote: p.remote,
+        validated: p.validated,
+        total_sent: p.total_sent,
+        total_recvd: p.total_recvd,
+        in_flight_bytes: p.in_flight.bytes,
+        in_flight_ack_eliciting: p.in_flight.ack_eliciting,
+        current_mtu: p.current_mtu(),
+        cwnd: p.congestion.window(),
+        challenge: p.challenge.is_some(),
+        challenge_pending: p.challenge_pending,
+        rtt_pto_base: p.rtt.pto_base(),
+    }
+}
+
+fn space_snap(s: &PacketSpace) -> SpaceSnap {
+    SpaceSnap {
+        has_keys: s.crypto.is_some(),
+        next_pn: s.next_packet_number,
+        largest_acked: s.largest_acked_packet,
+        loss_probes: s.loss_probes,
+        sent_in_flight: s.sent_packets.has_in_flight(),
+        dedup_next: s.dedup.verif_state().1,
+        rx_packet: s.rx_packet,
+        loss_time: s.loss_time,
+        time_of_last_ack_eliciting_packet: s.time_of_last_ack_eliciting_packet,
+        crypto_offset: s.crypto_offset,
+    }
+}
+
+impl Connection {
+    /// Read-only projection of the state (verification hook)
+    pub fn verif_snapshot(&self) -> Snapshot {
+        use crate::packet::SpaceId;
+        let mut timers = [None; 9];
+        for (i, t) in Timer::VALUES.iter().enumerate() {
+            timers[i] = self.timers.get(*t);
+        }
+        Snapshot {
+            state: match self.state {
+                State::Handshake(_) => "handshake",
+                State::Established => "established",
+                State::Closed(_) => "closed",
+                State::Draining => "draining",
+                State::Drained => "drained",
+            },
+            has_error: self.error.is_some(),
+            close: self.close,
+            timers,
+            path: path_snap(&self.path),
+            prev_path: self.prev_path.as_ref().map(|(_, p)| path_snap(p)),
+            spaces: [
+                space_snap(&self.spaces[SpaceId::Initial]),
+                space_snap(&self.spaces[SpaceId::Handshake]),
+                space_snap(&self.spaces[SpaceId::Data]),
+            ],
+            highest_space: self.highest_space as usize,
+            pto_count: self.pto_count,
+            pto: [
+                self.pto(SpaceId::Initial),
+                self.pto(SpaceId::Handshake),
+                self.pto(SpaceId::Data),
+            ],
+            idle_timeout: self.idle_timeout,
+            total_authed_packets: self.total_authed_packets,
+            authentication_failures: self.authentication_failures,
+            streams: self.streams.verif_snap(),
+            dgram_out_total: self.datagrams.outgoing_total,
+            dgram_out_len: self.datagrams.outgoing.len(),
+            dgram_in_buffered: self.datagrams.recv_buffered,
+            dgram_in_len: self.datagrams.incoming.len(),
+            events_queued: self.events.len(),
+            endpoint_events_queued: self.endpoint_events.len(),
+            path_responses_empty: self.path_responses.is_empty(),
+            permit_idle_reset: self.permit_idle_reset,
+            key_phase: self.key_phase,
+            accepted_0rtt: self.accepted_0rtt,
+        }
+    }
+}
